@@ -62,6 +62,14 @@ G.GROUPS['RelayConsts'] = dict(
         ('OFF_TS_REMAINING', 'offsetof(TTimerState_ExtendedValue, RemainingTimeMs)'),
         ('OFF_TS_TARGET', 'offsetof(TTimerState_ExtendedValue, TargetValue)'),
         ('OFF_TS_SENDER', 'offsetof(TTimerState_ExtendedValue, SenderID)'),
+        # transport of the three device calls of C06: frame = packet header + payload + end tag
+        ('FRAME_OVERHEAD', 'sizeof(TSuplaDataPacket) - SUPLA_MAX_DATA_SIZE + SUPLA_TAG_SIZE'),
+        ('SIZE_VALUE_MSG', 'sizeof(TDS_SuplaDeviceChannelValue)'),
+        ('SIZE_RESULT_MSG', 'sizeof(TDS_SuplaChannelNewValueResult)'),
+        ('SIZE_EXT_MSG', 'sizeof(TDS_SuplaDeviceChannelExtendedValue) - SUPLA_CHANNELEXTENDEDVALUE_SIZE + sizeof(TTimerState_ExtendedValue)'),
+        ('SRPC_CHUNK', 'SRPC_BUFFER_SIZE'),
+        ('IN_SENSOR', 'INPUT_TYPE_SENSOR'), ('IN_MONO', 'INPUT_TYPE_BTN_MONOSTABLE'), ('IN_BI', 'INPUT_TYPE_BTN_BISTABLE'),
+        ('IN_MOTION', 'INPUT_TYPE_MOTION_SENSOR'), ('IN_FLAG_ON_PRESS', 'INPUT_FLAG_TRIGGER_ON_PRESS'),
         # literals of the adaptive period (pattern-extracted)
         ('CD_DIV', _pat(_ss, r'time_left_ms\s*/\s*(\d+)\s*;', 'cd_div')),
         ('CD_MIN', _pat(_ss, r'if\s*\(\s*dms\s*<\s*(\d+)\s*\)\s*\{\s*dms\s*=\s*\1\s*;', 'cd_min')),
